@@ -85,6 +85,14 @@ def chk_rejections(hrp, ver, plen, salt, case_blocks=False):
         if not refused(h, s):
             viols.append(V("%s:decode:%s:accepted" % (P, cls), "decode(%r, %r) accepted (v%d, %d-byte program, fault: %s)" % (h, s, ver, plen, cls),
                            case={"k": "one_rej", "hrp": h, "s": s, "cls": cls}))
+        # the same string through the address WRAPPER (it takes the prefix from the string itself): refused there too, unless
+        # the string is a valid address of the prefix it carries
+        if h == hrp and len(s) >= 2 and enc.segwit_decode(s[:2].lower(), s) is None and enc.segwit_decode(s[:2], s) is None:
+            from btc_hd_wallet import helper
+            st, out = attempt(helper.bech32_decode_address, s)
+            if st == "ok" and out is not None:
+                viols.append(V("%s:bech32_decode_address:%s:accepted" % (P, cls.split(":")[0]), "bech32_decode_address(%r) returned %r (fault: %s)" % (s, bytes(out).hex()[:20], cls),
+                               case={"k": "one_helper", "s": s, "key": "%s:bech32_decode_address:%s:accepted" % (P, cls.split(":")[0])}))
 
     b = B()
     n += 1
@@ -353,7 +361,7 @@ def execute(case):
         from btc_hd_wallet import helper
         st, out = attempt(helper.bech32_decode_address, case["s"])
         if k == "one_helper":
-            key = P + (":bech32_decode_address:prefix-substitution:accepted" if case["s"][:2] not in ("bc", "tb") else ":bech32_decode_address:substitution-weight=1:accepted")
+            key = case.get("key") or P + (":bech32_decode_address:prefix-substitution:accepted" if case["s"][:2] not in ("bc", "tb") else ":bech32_decode_address:substitution-weight=1:accepted")
             return R("refused" if st != "ok" else "violation", viols=[] if st != "ok" else [V(key, "%s accepted" % case["s"])])
         return R("ok" if st == "ok" else "violation", viols=[] if st == "ok" else [V(P + ":bech32_decode_address:valid:refused", case["s"])])
     if k == "w2direct":
